@@ -17,6 +17,8 @@
 (*   ref   vector variable -> object id                                    *)
 (*   box   container variable -> sequence of object ids it holds (a list or a vector of vectors) *)
 (*   cap   closure variable -> object id it captured                       *)
+(*   lcs   name -> <<b1, b2>>: the private bindings of two closures built in the ARGUMENTS of the *)
+(*         tail calls of a loop (each closes over the loop variable of its own iteration)         *)
 (***************************************************************************)
 EXTENDS Programs
 
@@ -26,7 +28,7 @@ VecVars == {VecOrder[i] : i \in DOMAIN VecOrder}
 
 Indexes == {0, 1}
 
-EmptyStore == [cnt |-> <<>>, shr |-> <<>>, obj |-> <<>>, ref |-> <<>>, box |-> <<>>, cap |-> <<>>, kind |-> <<>>]
+EmptyStore == [cnt |-> <<>>, shr |-> <<>>, obj |-> <<>>, ref |-> <<>>, box |-> <<>>, cap |-> <<>>, kind |-> <<>>, lcs |-> <<>>]
 \* (functions with string domains are built with :> and @@; <<>> is the empty function)
 
 Def(f, x) == x \in DOMAIN f
@@ -47,6 +49,9 @@ Ops(st) ==
   \cup {[op |-> "MakeList", l |-> l, x |-> x, y |-> y] :
            l \in ListVars, x \in {x \in VecVars : Def(st.ref, x)}, y \in {y \in VecVars : Def(st.ref, y)}}
   \cup {[op |-> "MakeBoxVector", l |-> l, x |-> x] : l \in ListVars, x \in {x \in VecVars : Def(st.ref, x)}}
+  \cup {[op |-> "MakeFilledVector", l |-> l, x |-> x] : l \in ListVars, x \in {x \in VecVars : Def(st.ref, x)}}
+  \cup {[op |-> "LoopCounters", c |-> c] : c \in Counters}
+  \cup {[op |-> "BumpLoopCounter", c |-> c, j |-> j] : c \in {c \in Counters : Def(st.lcs, c)}, j \in {1, 2}}
   \cup {[op |-> "SetThroughContainer", l |-> l, j |-> j, v |-> v] :
            l \in {l \in ListVars : Def(st.box, l)}, j \in {1, 2}, v \in Vals}
   \cup {[op |-> "Capture", k |-> k, x |-> x] : k \in CapVars, x \in {x \in VecVars : Def(st.ref, x)}}
@@ -58,7 +63,8 @@ NewObj(st) == Len(st.obj) + 1
 SetObj(st, o, i, v) == IF st.obj[o].mut THEN [st EXCEPT !.obj[o].xs[i + 1] = v] ELSE st
 
 Effect(st, a) ==
-  CASE a.op = "NewCounter"  -> [st EXCEPT !.cnt = Upd(@, a.c, 0)]          \* a fresh binding per call of the generator
+  CASE a.op = "NewCounter"  -> [st EXCEPT !.cnt = Upd(@, a.c, 0),          \* a fresh binding per call of the generator
+                                         !.lcs = [x \in DOMAIN st.lcs \ {a.c} |-> st.lcs[x]]]
     [] a.op = "Bump"        -> [st EXCEPT !.cnt[a.c] = @ + 1]
     [] a.op = "NewShared"   -> [st EXCEPT !.shr = Upd(@, a.p, 0)]
     [] a.op = "BumpShared"  -> [st EXCEPT !.shr[a.p] = @ + 1]
@@ -69,7 +75,10 @@ Effect(st, a) ==
     [] a.op = "VecSet"      -> SetObj(st, st.ref[a.x], a.i, a.v)
     [] a.op = "PassAndSet"  -> SetObj(st, st.ref[a.x], 0, a.v)
     [] a.op = "MakeList"    -> [st EXCEPT !.box = Upd(@, a.l, <<st.ref[a.x], st.ref[a.y]>>), !.kind = Upd(@, a.l, "list")]
-    [] a.op = "MakeBoxVector" -> [st EXCEPT !.box = Upd(@, a.l, <<st.ref[a.x], st.ref[a.x]>>), !.kind = Upd(@, a.l, "vector")]
+    [] a.op \in {"MakeBoxVector", "MakeFilledVector"} ->
+         [st EXCEPT !.box = Upd(@, a.l, <<st.ref[a.x], st.ref[a.x]>>), !.kind = Upd(@, a.l, "vector")]
+    [] a.op = "LoopCounters" -> [st EXCEPT !.lcs = Upd(@, a.c, <<1, 2>>), !.cnt = [x \in DOMAIN st.cnt \ {a.c} |-> st.cnt[x]]]
+    [] a.op = "BumpLoopCounter" -> [st EXCEPT !.lcs[a.c][a.j] = @ + 10]
     [] a.op = "SetThroughContainer" -> SetObj(st, st.box[a.l][a.j], 1, a.v)
     [] a.op = "Capture"     -> [st EXCEPT !.cap = Upd(@, a.k, st.ref[a.x])]
     [] a.op = "SetThroughClosure" -> SetObj(st, st.cap[a.k], 1, a.v)
@@ -80,7 +89,9 @@ Result(st, a) ==
   LET val(n) == [k |-> "value", v |-> MkInt(n)]
       unspec == [k |-> "value", v |-> Unspec]
       immut == [k |-> "error", kind |-> "ImmutableVector"]
-  IN CASE a.op \in {"NewCounter", "NewShared", "MakeVector", "MakeLiteral", "Alias", "MakeList", "MakeBoxVector", "Capture"} -> [k |-> "none"]
+  IN CASE a.op \in {"NewCounter", "NewShared", "MakeVector", "MakeLiteral", "Alias", "MakeList", "MakeBoxVector",
+                     "MakeFilledVector", "Capture", "LoopCounters"} -> [k |-> "none"]
+       [] a.op = "BumpLoopCounter" -> val(st.lcs[a.c][a.j] + 10)
        [] a.op = "Bump"        -> val(st.cnt[a.c] + 1)
        [] a.op = "BumpShared"  -> val(st.shr[a.p] + 1)
        [] a.op = "PeekShared"  -> val(st.shr[a.p])
@@ -94,7 +105,12 @@ GenCounter == Define("make-counter", Lam(<<>>, "", <<B("n", Num(0))>>,
 GenShared == Define("make-shared", Lam(<<>>, "", <<B("n", Num(0))>>,
                  <<Call("cons", <<Lam(<<>>, "", <<>>, <<Set("n", Call("+", <<Var("n"), Num(1)>>)), Var("n")>>),
                                   Lam(<<>>, "", <<>>, <<Var("n")>>)>>)>>))
-Prelude == <<GenCounter, GenShared>>
+\* (make-loop-counters n acc): a tail-recursive loop; each iteration conses a closure over ITS OWN n onto acc
+GenLoop == Define("make-loop-counters", Lam(<<"n", "acc">>, "", <<>>,
+              <<If3(Call("=", <<Var("n"), Num(0)>>), Var("acc"),
+                    Call("make-loop-counters", <<Call("-", <<Var("n"), Num(1)>>),
+                         Call("cons", <<Lam(<<>>, "", <<>>, <<Set("n", Call("+", <<Var("n"), Num(10)>>)), Var("n")>>), Var("acc")>>)>>))>>))
+Prelude == <<GenCounter, GenShared, GenLoop>>
 
 Form(st, a) ==
   CASE a.op = "NewCounter"  -> Define(a.c, Call("make-counter", <<>>))
@@ -109,6 +125,9 @@ Form(st, a) ==
     [] a.op = "PassAndSet"  -> App(Fn(<<"param">>, <<Call("vector-set!", <<Var("param"), Num(0), Num(a.v)>>)>>), <<Var(a.x)>>)
     [] a.op = "MakeList"    -> Define(a.l, Call("list", <<Var(a.x), Var(a.y)>>))
     [] a.op = "MakeBoxVector" -> Define(a.l, Call("vector", <<Var(a.x), Var(a.x)>>))
+    [] a.op = "MakeFilledVector" -> Define(a.l, Call("make-vector", <<Num(2), Var(a.x)>>))
+    [] a.op = "LoopCounters" -> Define(a.c, Call("make-loop-counters", <<Num(2), Quote(Nil)>>))     \* (closure over n=1, closure over n=2)
+    [] a.op = "BumpLoopCounter" -> App(Call(IF a.j = 1 THEN "car" ELSE "cadr", <<Var(a.c)>>), <<>>)
     [] a.op = "SetThroughContainer" ->
          IF st.kind[a.l] = "list"
          THEN Call("vector-set!", <<Call(IF a.j = 1 THEN "car" ELSE "cadr", <<Var(a.l)>>), Num(1), Num(a.v)>>)
